@@ -718,6 +718,11 @@ impl<W: Write> Interp<W> {
                     },
                     Err(e) => self.emit(&format!("bad party {}", sanitize(&e))),
                 },
+                // orchestrator self-test only (never generated by a check): lets the watchdog / death isolation be exercised
+                "debug_hang" => loop {
+                    std::thread::sleep(std::time::Duration::from_secs(3600));
+                },
+                "debug_abort" => std::process::abort(),
                 "reg" => {
                     // reg <name> <bytes spec>
                     if let (Some(n), Some(s)) = (toks.get(1), toks.get(2)) {
